@@ -69,7 +69,7 @@ class World:
             return ["callable", dumper_battery(fn, op["t"])], fn, None
         if kind == "get_converter":
             src, dst, _ = pools.CONVERTERS[op["conv"]]
-            out, fn = outcome(_get_converter, self.handles[op["h"]], src, dst, op.get("rcp"), op.get("rcp_shared", False))
+            out, fn = outcome(_get_converter, self.handles[op["h"]], op["conv"], op.get("rcp"), op.get("rcp_shared", False))
             self.callables.append((fn if out[0] == "ok" else None, self.ref_desc(op)))
             if out[0] != "ok":
                 return out, None, None
@@ -77,7 +77,7 @@ class World:
         if kind == "convert":
             _, dst, _ = pools.CONVERTERS[op["conv"]]
             arg = pools.obj(op["o"])
-            out, res = outcome(_convert, self.handles[op["h"]], arg, dst, op.get("rcp"), op.get("rcp_shared", False))
+            out, res = outcome(_convert, self.handles[op["h"]], op["conv"], arg, op.get("rcp"), op.get("rcp_shared", False))
             return out, res, arg
         if kind == "call":
             fn, tmpl = self.callables[op["c"]]
@@ -109,15 +109,24 @@ class World:
         raise ValueError(op)
 
 
-def _get_converter(retort, src, dst, rcp, shared=False):
-    """rcp: name of a per-call recipe (get_converter(..., recipe=[...])) or None; shared: the same provider
-    objects on every call"""
+def _get_converter(retort, cname, rcp, shared=False):
+    """cname: converter pool entry; rcp: name of a per-call recipe (get_converter(..., recipe=[...])) or None;
+    shared: the same provider objects on every call"""
+    src, dst, _ = pools.CONVERTERS[cname]
+    if cname in pools.IMPL_STUBS:
+        # impl_converter from a stub with extra parameters; the battery keeps calling it with one argument
+        stub, extra = pools.IMPL_STUBS[cname]
+        fn = retort.impl_converter(stub) if rcp is None else retort.impl_converter(recipe=pools.conv_recipe(rcp, shared))(stub)
+        return lambda x: fn(x, *extra())
     if rcp is None:
         return retort.get_converter(src, dst)
     return retort.get_converter(src, dst, recipe=pools.conv_recipe(rcp, shared))
 
 
-def _convert(retort, arg, dst, rcp, shared=False):
+def _convert(retort, cname, arg, rcp, shared=False):
+    if cname in pools.IMPL_STUBS:
+        return _get_converter(retort, cname, rcp, shared)(arg)
+    dst = pools.CONVERTERS[cname][1]
     if rcp is None:
         return retort.convert(arg, dst)
     return retort.convert(arg, dst, recipe=pools.conv_recipe(rcp, shared))
@@ -156,14 +165,14 @@ def compute_ref(desc):
         return out if out[0] != "ok" else ["callable", dumper_battery(fn, desc["t"])]
     if kind == "get_converter":
         src, dst, _ = pools.CONVERTERS[desc["conv"]]
-        out, fn = outcome(_get_converter, retort, src, dst, desc.get("rcp"), desc.get("rcp_shared", False))
+        out, fn = outcome(_get_converter, retort, desc["conv"], desc.get("rcp"), desc.get("rcp_shared", False))
         return out if out[0] != "ok" else ["callable", converter_battery(fn, desc["conv"])]
     if kind == "convert":
         _, dst, _ = pools.CONVERTERS[desc["conv"]]
-        return outcome(_convert, retort, pools.obj(desc["o"]), dst, desc.get("rcp"), desc.get("rcp_shared", False))[0]
+        return outcome(_convert, retort, desc["conv"], pools.obj(desc["o"]), desc.get("rcp"), desc.get("rcp_shared", False))[0]
     if kind == "convert_call":
         src, dst, _ = pools.CONVERTERS[desc["conv"]]
-        out, fn = outcome(_get_converter, retort, src, dst, desc.get("rcp"), desc.get("rcp_shared", False))
+        out, fn = outcome(_get_converter, retort, desc["conv"], desc.get("rcp"), desc.get("rcp_shared", False))
         if out[0] != "ok":
             return ["skipped"]
         return outcome(fn, pools.obj(desc["o"]))[0]
